@@ -64,13 +64,13 @@ CLAIMED = {
     "C13": {
         "engine": "vec",
         "technique": "Coq proof (refinement of a bitwise buffer model of Vec/RawVec to list semantics) + differential execution against std::vec::Vec and against the extracted model",
-        "text": "C13_push/pop/insert/remove/swap_remove/truncate/cap_ge_len/reserve_post/drain_filter_partition/extend_copy/extend_iter/extend_hint_irrelevant/split_off/drain/resize_grow/resize_shrink/splice/splice_hints_irrelevant/dedup_by/into_iter/clone are proved; C13_source_insert / C13_source_index_checks / C13_source_remove / C13_source_split_off / C13_source_drain_bounds / C13_source_drain_checks tie the index checks, memmove arguments, new lengths and range resolution of the source text to the model; for all arguments (out-of-range included) of the Vec model; every generated program (26 operation kinds, boundary indices, all range forms, scripted callbacks, neighbours and canaries in the same arena) is run on bumpalo's Vec, on std's Vec (the oracle the property names) and through the extracted model, debug and release. Every history also runs a zero-sized-element section against std, and the scripted iterators lie about their size_hint. Partial: conversions and zero-sized element types are decided by the differential only.",
+        "text": "C13_push/pop/insert/remove/swap_remove/truncate/cap_ge_len/reserve_post/drain_filter_partition/extend_copy/extend_iter/extend_hint_irrelevant/split_off/drain/resize_grow/resize_shrink/splice/splice_hints_irrelevant/dedup_by/into_iter/clone are proved; C13_source_insert / C13_source_index_checks / C13_source_remove / C13_source_split_off / C13_source_frames / C13_source_drain_bounds / C13_source_drain_checks tie the index checks, memmove arguments, new lengths and range resolution of the source text to the model; for all arguments (out-of-range included) of the Vec model; every generated program (26 operation kinds, boundary indices, all range forms, scripted callbacks, neighbours and canaries in the same arena) is run on bumpalo's Vec, on std's Vec (the oracle the property names) and through the extracted model, debug and release. Every history also runs a zero-sized-element section against std, and the scripted iterators lie about their size_hint. Partial: conversions and zero-sized element types are decided by the differential only.",
         "design_ref": "DESIGN.md §6 C13",
     },
     "C14": {
         "engine": "string",
         "technique": "Coq proof (well-formed UTF-8 closed under concatenation and splitting at char boundaries; lossy chunk iterator invariant; generated obligation on the width table) + differential execution against std::string::String and the extracted model",
-        "text": "C14_split_at_boundary / C14_concat / C14_truncate / C14_insert_str / C14_split_off / C14_remove / C14_replace_range / C14_from_utf8 / C14_lossy_chunk / C14_lossy_valid / C14_lossy_identity / C14_encode_wellformed / C14_decode_encode / C14_push / C14_insert / C14_insert_panics_off_boundary / C14_retain / C14_retain_all_is_identity / C14_pop / C14_from_utf16_valid / C14_from_utf16_roundtrip / C14_source_decoder (the loop body of the lossy decoder, parsed from lossy.rs on every run, decides like the model on every byte string) / C14_from_utf16_exact (the model of from_utf16_in accepts exactly well-formed UTF-16 and yields the UTF-8 of the same scalar values) / C14_lossy_is_maximal_subpart_repair (for every byte string the decoder's output equals an implementation-independent specification: each maximal subpart of an ill-formed sequence becomes one U+FFFD; the extracted specification is also compared with std's output on every swept input). Every generated program (18 operation kinds at every byte index, all range forms, 1-4 byte characters, panicking retain predicates) runs on bumpalo's String and std's String with a UTF-8 validity check after every operation; the decoders are compared with std on all byte strings up to length 2 (and through the model), a sweep of length 3, structured ill-formed input, and all single UTF-16 units plus structured pairs. The lead-byte width table is read back from the built crate on every run. UTF-16 texts (boundary units alone, in pairs and triples, random surrogate-heavy texts) go to the extracted model, the implementation and std. C14_encode_decode / C14_extend / C14_extend_by_text / C14_push_str. Partial: the items a drain yields, format!/write_fmt and trait forwarding are decided by the differential only.",
+        "text": "C14_split_at_boundary / C14_concat / C14_truncate / C14_insert_str / C14_split_off / C14_remove / C14_replace_range / C14_from_utf8 / C14_lossy_chunk / C14_lossy_valid / C14_lossy_identity / C14_encode_wellformed / C14_decode_encode / C14_push / C14_insert / C14_insert_panics_off_boundary / C14_retain / C14_retain_all_is_identity / C14_pop / C14_from_utf16_valid / C14_from_utf16_roundtrip / C14_source_decoder (the loop body of the lossy decoder, parsed from lossy.rs on every run, decides like the model on every byte string) / C14_from_utf16_exact (the model of from_utf16_in accepts exactly well-formed UTF-16 and yields the UTF-8 of the same scalar values) / C14_lossy_is_maximal_subpart_repair (for every byte string the decoder's output equals an implementation-independent specification: each maximal subpart of an ill-formed sequence becomes one U+FFFD; the extracted specification is also compared with std's output on every swept input). Every generated program (18 operation kinds at every byte index, all range forms, 1-4 byte characters, panicking retain predicates) runs on bumpalo's String and std's String with a UTF-8 validity check after every operation; the decoders are compared with std on all byte strings up to length 2 (and through the model), a sweep of length 3, structured ill-formed input, and all single UTF-16 units plus structured pairs. The lead-byte width table is read back from the built crate on every run. UTF-16 texts (boundary units alone, in pairs and triples, random surrogate-heavy texts) go to the extracted model, the implementation and std. C14_encode_decode / C14_extend / C14_extend_by_text / C14_push_str. Source tie of the byte moves: C14_source_remove / C14_source_insert_bytes / C14_source_pop_truncate / C14_source_drain_bounds / C14_source_frames (the arguments String::remove, insert_bytes, pop and truncate pass to ptr::copy and set_len, and the boundary assertions in front of them, parsed from string.rs on every run) and C14_remove_assembled_from_source / C14_insert_assembled_from_source / C14_truncate_assembled_from_source / C14_remove_by_memmove / C14_insert_by_memmove (those moves done to a buffer give the model's result, for every text, index and spare capacity). Partial: the items a drain yields, format!/write_fmt and trait forwarding are decided by the differential only.",
         "design_ref": "DESIGN.md §6 C14",
     },
     "C15": {
